@@ -12,12 +12,12 @@
 (* them for every demand profile of the bounded model (refinement), which  *)
 (* also calibrates the tolerance Tau used when real traces are judged.     *)
 (***************************************************************************)
-EXTENDS Integers, Sequences, FiniteSets, TLC
+EXTENDS WarmEnv, Sequences, FiniteSets, TLC
 
 CONSTANTS Q, C, P,       \* threshold (tokens per second), cold factor (0 = default 3), warm-up period (s)
           Tau            \* tolerance of "about"
 
-Cf == IF C <= 1 THEN 3 ELSE C
+Cf == EffCold(C)
 Warn == (P * Q) \div (Cf - 1)
 MaxTok == Warn + 2 * ((P * Q) \div (Cf + 1))
 D == MaxTok - Warn
@@ -28,7 +28,7 @@ VARIABLES
     stored,    \* tokens in the warm-up bucket
     lastFill,  \* second of the last refill, -1 = never
     synced,    \* second for which the tokens were synchronised already (first request of a second)
-    admB,      \* admitted in the buckets half-3 .. half: <<b3, b2, b1, b0>> (b0 = current)
+    admB,      \* admitted in the last four completed buckets <<half-4, half-3, half-2, half-1>>
     offB,      \* offered, same layout
     run,       \* number of consecutive saturated seconds completed just before the current second
     idle,      \* number of consecutive idle seconds completed just before the current second
@@ -56,24 +56,17 @@ Bucket(d) ==
     LET s == half \div 2
         first == d > 0 /\ synced # s
         \* pass rate of the window ending one bucket earlier, as the first request of the second sees it
-        prev == IF half % 2 = 0 THEN admB[2] + admB[3] ELSE admB[3] + 0
+        prev == admB[3] + admB[4]                       \* the two buckets before the current one
         st == IF first THEN Sync(s, prev) ELSE stored
-        room == Max(Allow(st) - admB[3], 0)              \* window = previous bucket + this bucket
+        room == Max(Allow(st) - admB[4], 0)              \* window = previous bucket + this bucket
         a == Min(d, room)
     IN  /\ stored' = st
         /\ lastFill' = IF first THEN s ELSE lastFill
         /\ synced' = IF first THEN s ELSE synced
-        /\ admB' = <<admB[1], admB[2], admB[3], a>>
-        /\ offB' = <<offB[1], offB[2], offB[3], d>>
+        /\ admB' = <<admB[2], admB[3], admB[4], a>>
+        /\ offB' = <<offB[2], offB[3], offB[4], d>>
 
-\* envelope clauses for the second that has just been completed (buckets 3 and 4 of the primed tuples)
-SecondOK(adm, off1, off2, r, cold, prevAdm) ==
-    LET sat == off1 >= Q /\ off2 >= Q IN
-    /\ adm <= Q                                          \* never more than q per interval
-    /\ sat => adm >= Lo - Tau                            \* never less than about q/c when saturated
-    /\ cold => adm <= Lo + Tau                           \* cold start / cold again after idling 2p
-    /\ (sat /\ r >= 1) => adm >= prevAdm - Tau           \* the allowance does not decrease
-    /\ (sat /\ r >= 2 * P + 2) => adm >= Q - Tau         \* warmed up within 2p + 2 seconds
+SecondOK(adm, off1, off2, r, cold, prevAdm) == SecondOKp(Q, Cf, P, Tau, adm, off1, off2, r, cold, prevAdm)
 
 Step(d) ==
     /\ Bucket(d)
